@@ -23,11 +23,17 @@ type ChildResult struct {
 // the child gets SIGQUIT (so that the Go runtime prints every goroutine) and,
 // five seconds later, SIGKILL.
 func RunChild(bin string, args []string, env []string, outPath string, timeout time.Duration) ChildResult {
+	return RunChildDir("", bin, args, env, outPath, timeout)
+}
+
+// RunChildDir is RunChild with a working directory.
+func RunChildDir(dir, bin string, args []string, env []string, outPath string, timeout time.Duration) ChildResult {
 	f, err := os.Create(outPath)
 	if err != nil {
 		return ChildResult{ExitCode: -1, Output: err.Error()}
 	}
 	cmd := exec.Command(bin, args...)
+	cmd.Dir = dir
 	cmd.Env = append(os.Environ(), env...)
 	cmd.Stdout = f
 	cmd.Stderr = f
